@@ -305,13 +305,22 @@ func (rs *ResourceSubscription) handleEventRemove(r *ResourceEvent) bool {
 
 func (rs *ResourceSubscription) handleEventDelete(r *ResourceEvent) {
 	subs := rs.subs
+	waiting := rs.waiting
 	c := int64(len(subs))
 	rs.subs = nil
+	rs.waiting = nil
 	rs.unregister()
 	rs.e.removeCount(c)
 
 	rs.e.mu.Unlock()
 	for sub := range subs {
+		// Subscribers still waiting for the resource's own get response have
+		// not been handed the resource, which was loaded by a linked query, and
+		// would discard the event. They are told that the resource is gone.
+		if _, ok := waiting[sub]; ok {
+			sub.Loaded(nil, reserr.ErrNotFound)
+			continue
+		}
 		sub.Event(r)
 	}
 	rs.e.mu.Lock()
